@@ -218,6 +218,12 @@ func (p parentLoader) GetParentByHeight(height uint32, sonBlockHash common.Hash)
 // `t`, mined and signed by the deputy in turn at `t` (or by `forceKey`, with the header naming
 // `forceKey`'s address, when given). The block is NOT stored; feed it to InsertBlock.
 func (n *Node) Build(parent *types.Block, t uint32, txs types.Transactions, forceKey *ecdsa.PrivateKey) (*types.Block, types.Transactions, error) {
+	return n.BuildGas(parent, t, txs, forceKey, 0)
+}
+
+// BuildGas is Build with a block gas limit chosen by the miner (0 = the engine's calcGasLimit). The gas limit
+// is miner strategy, not a consensus rule: validators accept any value.
+func (n *Node) BuildGas(parent *types.Block, t uint32, txs types.Transactions, forceKey *ecdsa.PrivateKey, gasLimit uint64) (*types.Block, types.Transactions, error) {
 	k := forceKey
 	if k == nil {
 		var err error
@@ -236,6 +242,9 @@ func (n *Node) Build(parent *types.Block, t uint32, txs types.Transactions, forc
 		header = &types.Header{ParentHash: parent.Hash(), MinerAddress: keyAddr(k), Height: parent.Height() + 1, GasLimit: parent.GasLimit()}
 	}
 	header.Time = t
+	if gasLimit != 0 {
+		header.GasLimit = gasLimit
+	}
 	block, invalid, err := asm.MineBlock(header, txs, 60000)
 	if err != nil {
 		return nil, invalid, err
